@@ -43,6 +43,8 @@ class Prop(PropBase):
     ASSUMPTIONS = ["data-race freedom is explored by ThreadSanitizer on the generated schedules, not proved (partial for schedules)",
                    "objects are distinct (sharing one terminal between threads is outside the property)"]
 
+    custom_replays = True
+
     @staticmethod
     def regenerate(build):
         statics.generate()
@@ -81,16 +83,19 @@ class Prop(PropBase):
             sets.append(lines)
         # one object's channel FAILS (write() throws, once) in the middle of an operation while other objects are alive on
         # the same thread: every other object must be sent exactly what it is sent alone
-        for _ in range(n // 3 + 4):
+        for _ in range(n // 2 + 8):
+            def one_string(min_len=1):
+                return tg.op_ws([tg.element(r) for _ in range(r.choice([min_len, 2, 3, 6]))])
+
             def strings(k_):
                 ops = []
                 for _ in range(k_):
-                    es = [tg.element(r) for _ in range(r.choice([1, 2, 3, 6]))]
-                    ops.append(r.choice([tg.op_ws(es), tg.op_ws(es), tg.op_we(es[0]), "mv %d %d" % (r.randrange(5), r.randrange(3)), "er %d" % r.randrange(6)]))
+                    ops.append(r.choice([one_string(), one_string(), one_string(), tg.op_we(tg.element(r)), "mv %d %d" % (r.randrange(5), r.randrange(3)), "er %d" % r.randrange(6)]))
                 return ops
-            before, after = strings(r.choice([0, 1, 2])), strings(r.choice([1, 2, 3]))
+            # the operation that fails is mostly a whole string (several elements, several writes), failing at its first write or later
+            before, after = strings(r.choice([0, 1, 2])), [r.choice([one_string(2), one_string(2), tg.op_we(tg.element(r))])] + strings(r.choice([0, 1, 2]))
             faulty = "T %d ; sz 9 4 ; %s" % (r.choice([0, 16]), " ; ".join(before + ["fw %d" % r.choice([0, 0, 1, 2, 5])] + after))
-            others = ["T %d ; sz 9 4 ; %s" % (r.choice([0, 16, 31]), " ; ".join(strings(r.choice([2, 3, 5])))) for _ in range(r.choice([1, 2, 3]))]
+            others = ["T %d ; sz 9 4 ; %s" % (r.choice([0, 16, 31]), " ; ".join(strings(r.choice([3, 5, 8])))) for _ in range(r.choice([1, 2, 3]))]
             if r.random() < 0.3:
                 others.append(sg.frames(r, 2))
             lines = others[:1] + [faulty] + others[1:]
@@ -156,7 +161,7 @@ class Prop(PropBase):
         statics.generate()
         inter = build.build_harness("interleave")
         inter_tsan = build.build_harness("interleave", "tsan")
-        sets = Prop.object_sets(tier, rng)
+        sets = Prop.object_sets(tier, rng) if not ctx.get("replay") else [ctx["replay"]["lines"]]
         failures, samples = [], []
         runs = tsan_runs = 0
         nontrivial = set()
